@@ -15,6 +15,8 @@ EXTRA = [
     "| a | b |\n|---|---|\n| 1 | 2 |\n| 3 |\n| 4 | 5 | 6 |\n", "> ---\n", "- ---\n", "---\n", "# A\n\n## B\n\n# A\n\n## B\n", "# a\n\n(a)=\n## other\n\n[](#a)\n",
     "```{figure} x.png\n:name: fig\n\ncaption\n```\n\n[](#fig)\n", "text [ref]\n\n[ref]: https://x.y\n", "Term\n: def\n\n:field: val\n", "{ref}`x` {doc}`y`\n",
     "```{note}\n# nested heading\n\n[^1]\n```\n\n[^1]: fn\n", "[^a]\n\n```{note}\n[^a]: inside directive\n```\n", "1. a\n\n   | x |\n   |---|\n   | y |\n", "<div>\n\n---\n\n</div>\n",
+    # one id used twice (attribute blocks): docutils reports into the node that is being registered
+    "{#x}\n# A\n\n{#x}\n# B\n\n[](#x)\n", "{#x}\n# A\n\n(x)=\npara\n", "(x)=\n# A\n\n{#x}\n## B\n", "{#a}\n# A\n\n## a\n", "{#x}\npara\n\n{#x}\n# H\n",
     "# T\n\n[](#t) [](#t)\n", "```{contents}\n```\n\n# H1\n\n## H2\n", "a[^x][^y]\n\n[^y]: Y\n[^x]: X\n", "[^1]: a\n\n# Heading after footnote\n\ntext[^1]\n",
 ]
 COLS = "| " + " | ".join(f"c{i}" for i in range(101)) + " |\n|" + "---|" * 101 + "\n| " + " | ".join("v" for i in range(101)) + " |\n"
@@ -47,7 +49,7 @@ def run(tier, seed, extra):
     rng = random.Random(seed)
     t0 = time.time()
     cnt = 0
-    ovs = [{}, {"myst_heading_anchors": 3, "myst_enable_extensions": ["colon_fence", "deflist", "fieldlist"]}, {"myst_footnote_sort": False}, {"myst_footnote_transition": False}]
+    ovs = [{}, {"myst_heading_anchors": 3, "myst_enable_extensions": ["colon_fence", "deflist", "fieldlist", "attrs_block", "attrs_inline"]}, {"myst_footnote_sort": False}, {"myst_footnote_transition": False}]
     for t in EXTRA + [COLS]:
         for ov in ovs:
             col.case((t[:100], str(ov)))
@@ -61,7 +63,7 @@ def run(tier, seed, extra):
         if rng.random() < 0.3:
             text = rng.choice(EXTRA) + "\n" + text
         col.case(text)
-        check_doc(col, text, {"myst_enable_extensions": ["colon_fence", "deflist", "fieldlist"], "myst_heading_anchors": rng.randint(0, 3)}, "gen")
+        check_doc(col, text, {"myst_enable_extensions": ["colon_fence", "deflist", "fieldlist", "attrs_block"], "myst_heading_anchors": rng.randint(0, 3)}, "gen")
         cnt += 1
     col.add_bound("well-formedness of the doctree after the standard transforms",
                   f"{cnt} documents: footnote / target / reference / table / transition / nested-heading vocabulary x 4 configurations, a 101-column table, generated nested documents (seed {seed})", cnt, time.time() - t0)
